@@ -180,3 +180,86 @@ func BadK3Flatten(xs []*k3Node) []*k3Node {
 func GoodJ3Wrap(base uint16, i int) uint16 { return uint16((int(base) + i) % 65536) }
 
 func BadJ3Wrap(base uint16, i int) uint16 { return uint16((int(base) + i) % 65535) }
+
+// ---- J4 / K4 ----------------------------------------------------------------------------------------------------------
+
+type j4ring struct {
+	size    uint16
+	highest uint16
+}
+
+// GoodJ4Age reads the wrap-around distance as signed and compares the window size unsigned.
+func (r *j4ring) GoodJ4Age(seq uint16) bool {
+	d := r.highest - seq
+	if int16(d) < 0 {
+		return false
+	}
+	return d < r.size && int16(r.size&0x7fff) >= 0
+}
+
+// BadJ4Age compares against int16(size): a window of 32768 becomes -32768 and nothing is ever in range.
+func (r *j4ring) BadJ4Age(seq uint16) bool {
+	age := int16(r.highest - seq)
+	return age >= 0 && age < int16(r.size)
+}
+
+type k4hist struct {
+	sent     []uint64
+	received []uint64
+}
+
+// GoodK4Push appends to the history it stores into (directly, through a local, and as a clone of the other one).
+func (h *k4hist) GoodK4Push(ts uint64) {
+	h.sent = append(h.sent, ts)
+	times := append(h.received, ts)
+	if len(times) > 5 {
+		times = times[len(times)-5:]
+	}
+	h.received = times
+	h.sent = append(h.received[:0:0], h.received...)
+}
+
+// BadK4Push is a copy-paste of the sent branch with one identifier left unchanged.
+func (h *k4hist) BadK4Push(ts uint64) {
+	times := append(h.sent, ts)
+	if len(times) > 5 {
+		times = times[len(times)-5:]
+	}
+	h.received = times
+}
+
+// ---- E4 -----------------------------------------------------------------------------------------------------------------
+
+type e4hist struct {
+	times []uint64
+	max   int
+}
+
+// GoodE4Each cuts after every append; GoodE4Loop cuts repeatedly until the limit holds.
+func (h *e4hist) GoodE4Each(blocks []uint64) {
+	for _, b := range blocks {
+		h.times = append(h.times, b)
+		if len(h.times) > h.max {
+			h.times = h.times[1:]
+		}
+	}
+}
+
+func (h *e4hist) GoodE4Loop(blocks []uint64) {
+	for _, b := range blocks {
+		h.times = append(h.times, b)
+	}
+	for len(h.times) > h.max {
+		h.times = h.times[1:]
+	}
+}
+
+// BadE4Once appends once per block but cuts one element per report.
+func (h *e4hist) BadE4Once(blocks []uint64) {
+	for _, b := range blocks {
+		h.times = append(h.times, b)
+	}
+	if len(h.times) > h.max {
+		h.times = h.times[1:]
+	}
+}
